@@ -1338,10 +1338,15 @@ func (fc *funcContext) translateImplicitConversion(expr ast.Expr, desiredType ty
 			return fc.formatExpr("new $jsObjectPtr(%e)", expr)
 		}
 		if isWrapped(exprType) {
+			if _, isArray := exprType.Underlying().(*types.Array); isArray {
+				// An interface holds a copy of the array, not the array itself.
+				return fc.formatExpr("new %1s($clone(%2e, %1s))", fc.typeName(exprType), expr)
+			}
 			return fc.formatExpr("new %s(%e)", fc.typeName(exprType), expr)
 		}
 		if _, isStruct := exprType.Underlying().(*types.Struct); isStruct {
-			return fc.formatExpr("new %1e.constructor.elem(%1e)", expr)
+			// An interface holds a copy of the struct, not the struct itself.
+			return fc.formatExpr("new %1s($clone(%2e, %1s))", fc.typeName(exprType), expr)
 		}
 	}
 
